@@ -1,10 +1,12 @@
 /-
   Proofs/C14/Name — RFC 1035 names (`IsName`), what `Spec.readName` accepts, and the bridge to the
-  model's "up to the first 0x00" name reader.
+  model's label-wise name reader (after the repair of the DNS dissectors: a length octet, then that many
+  octets of any value — a 0x00 inside a label is an ordinary octet).
 -/
 import Masscanned.Model.Dns
 import Masscanned.Spec.Dns
 import Masscanned.Proofs.Bytes
+import Masscanned.Proofs.DnsFix.Raw
 namespace Masscanned.C14
 open Masscanned
 
@@ -73,6 +75,11 @@ theorem readName_of_isName {n' : Bytes} (h : IsName n') : ∀ (fuel : Nat) (acc 
       rw [ih f _ r (by omega) (by simp; omega)]
       simp
 
+/-! ### NUL-free names (`Spec.labelsNoNul`)
+
+  No longer used by the bridge — the repaired reader does not care about 0x00 inside labels.  Kept as facts
+  about `Spec.labelsNoNul` (still a conjunct of `Spec.inAQuery` / `Spec.hasNonInA`). -/
+
 /-- a name whose label bytes are never 0x00 contains exactly one zero byte: its last -/
 theorem isName_split {n' : Bytes} (h : IsName n') : ∀ f, n'.length ≤ f → Spec.labelsNoNul f n' = true →
     ∃ body, n' = body ++ [0] ∧ ∀ b ∈ body, b ≠ 0 := by
@@ -140,51 +147,32 @@ theorem isName_noNul {n' : Bytes} (h : IsName n') : ∀ f body, n' = body ++ [0]
         · right; simpa using hbm
       refine ⟨fun b hbm => hmem b (by simp [hbm]), ih f _ hrest' (fun b hbm => hmem b (by simp [hbm]))⟩
 
-/-! ### the model's readers on a NUL-terminated body -/
+/-! ### the model's label-wise readers on an RFC 1035 name
 
-theorem dnsReadQ_body (body : Bytes) (hb : ∀ b ∈ body, b ≠ 0) : ∀ (acc r : Bytes),
-    dnsReadQ acc (body ++ 0 :: r) =
+  (`Proofs/DnsFix/Raw`: the repaired dissectors read a length octet, then that many octets of any value;
+  a name in the Spec's sense is in particular such a "raw" name, whatever octets its labels contain) -/
+
+open Masscanned.DnsFix in
+/-- an RFC 1035 name is a name as the label-wise reader delimits it (the converse fails only for labels
+    longer than 63 octets, which the reader accepts as plain lengths) -/
+theorem IsName.isRaw {n : Bytes} (h : IsName n) : IsRaw n := by
+  induction h with
+  | root => exact .root
+  | label l lab rest hl _ hlab _ ih => exact .label l lab rest hl hlab ih
+
+/-- the question reader on a name followed by `r`: the name, the two 16-bit fields; fails exactly when
+    fewer than 4 octets follow.  No condition on the label octets. -/
+theorem dnsReadQ_isName {n : Bytes} (h : IsName n) (acc r : Bytes) :
+    dnsReadQ acc (n ++ r) =
       if r.length < 4 then none
-      else some ({ name := acc ++ body ++ [0], qtype := rdBE (r.take 2), qclass := rdBE (slice r 2 2) }, r.drop 4) := by
-  induction body with
-  | nil => intro acc r; simp [dnsReadQ]
-  | cons b t ih =>
-    intro acc r
-    have hb0 : b ≠ 0 := hb b (by simp)
-    simp only [List.cons_append, dnsReadQ, hb0, if_false]
-    rw [ih (fun x hx => hb x (by simp [hx]))]
-    simp
+      else some ({ name := acc ++ n, qtype := rdBE (r.take 2), qclass := rdBE (slice r 2 2) }, r.drop 4) :=
+  DnsFix.dnsReadQ_raw h.isRaw acc r
 
-theorem dnsReadQ_noNul : ∀ (p : Bytes), (∀ b ∈ p, b ≠ 0) → ∀ acc, dnsReadQ acc p = none := by
-  intro p
-  induction p with
-  | nil => intro _ acc; rfl
-  | cons b t ih =>
-    intro hb acc
-    have hb0 : b ≠ 0 := hb b (by simp)
-    simp only [dnsReadQ, hb0, if_false]
-    exact ih (fun x hx => hb x (by simp [hx])) _
-
-theorem dnsSkipRR_body (body : Bytes) (hb : ∀ b ∈ body, b ≠ 0) (r : Bytes) :
-    dnsSkipRR (body ++ 0 :: r) =
+theorem dnsSkipRR_isName {n : Bytes} (h : IsName n) (r : Bytes) :
+    dnsSkipRR (n ++ r) =
       if r.length < 10 then none
       else if (r.drop 10).length < rdBE (slice r 8 2) then none
-      else some ((r.drop 10).drop (rdBE (slice r 8 2))) := by
-  induction body with
-  | nil => simp [dnsSkipRR]
-  | cons b t ih =>
-    have hb0 : b ≠ 0 := hb b (by simp)
-    simp only [List.cons_append, dnsSkipRR, hb0, if_false]
-    exact ih (fun x hx => hb x (by simp [hx]))
-
-theorem dnsSkipRR_noNul : ∀ (p : Bytes), (∀ b ∈ p, b ≠ 0) → dnsSkipRR p = none := by
-  intro p
-  induction p with
-  | nil => intro _; rfl
-  | cons b t ih =>
-    intro hb
-    have hb0 : b ≠ 0 := hb b (by simp)
-    simp only [dnsSkipRR, hb0, if_false]
-    exact ih (fun x hx => hb x (by simp [hx]))
+      else some ((r.drop 10).drop (rdBE (slice r 8 2))) :=
+  DnsFix.dnsSkipRR_raw h.isRaw r
 
 end Masscanned.C14
